@@ -46,6 +46,13 @@ def main():
         if info is None:
             print("REPLAY-PASS property=%s subcheck=%s" % (rp["property"], rp["subcheck"]))
             return 0
+        known = [f for f in core.load_known_findings() if f["status"] == "known" and
+                 (f["property"] == rp["property"] or rp["property"] in f.get("also_properties", []))]
+        for f in known:
+            if info.get("key") is not None and f["key"] == info["key"]:
+                print("KNOWN-FINDING: property=%s %s [key=%s replay=%s]"
+                      % (rp["property"], f["what"], f["key"], os.path.abspath(args.replay)))
+                return 0
         print(info["traceback"])
         print("VIOLATION property=%s replay=%s subcheck=%s :: %s: %s"
               % (rp["property"], os.path.abspath(args.replay), rp["subcheck"],
